@@ -3,7 +3,7 @@
 # with the seeded patch applied; prints one summary line per check.  The scratch copy is removed afterwards.
 sd=$1; shift
 props="$@"
-[ -z "$props" ] && props=$(python3 -c "import json,sys;print(json.load(open('$sd/meta.json'))['property'])")
+[ -z "$props" ] && props=$(python3 -c "import json,sys;print(json.load(open('$sd/meta.json')).get('property') or json.load(open('$sd/meta.json'))['breaks_property'])")
 D=$(mktemp -d /tmp/seedrun.XXXXXX)
 cp -r /repo/pytoniq_core $D/
 if ! patch -s -p1 -d $D < $sd/patch.diff; then echo "PATCH DID NOT APPLY: $sd"; rm -rf $D; exit 2; fi
